@@ -5,6 +5,17 @@ props = [json.loads(l) for l in open(os.path.join(VERIF, "properties.jsonl"))]
 ids = [p["id"] for p in props]
 
 CHECKS = {
+ "C17": dict(
+   text="Proof: props/C17.v, by structural induction over ALL programs built from helper calls, sequencing, with-blocks, raise and "
+        "try/except (any nesting depth, exceptions at any point, solvers re-entered while already active): the stack of active solvers "
+        "after the program equals the stack before it, on normal and on exceptional exit (stack_restored); every helper acts on the solver "
+        "of the innermost enclosing with-block (helpers_hit_innermost); effects recorded earlier are untouched (log_extends). Closed under "
+        "the global context. The tie executes random such programs on /repo with every module-level helper (put, putpin, Pin.put, "
+        "connect, connect_all, raise_pins, add_param, set/update_default_params, add_structure_to_monitors, solve) and compares the kind "
+        "of exit, lekkersim.sol_list afterwards and, for each helper call, which solver actually changed.",
+   note="Trusted: Coq kernel + vm_compute; CPython's with/try semantics as modelled; model Stack.v tied by sampled correspondence; harness "
+        "(the changed solver is detected by fingerprinting all solvers before/after each helper).",
+   technique="Coq proof by induction over programs + vm_compute correspondence of executed with-block programs", design="§5 C17"),
  "C07": dict(
    text="PARTIAL proof + full-state correspondence. Proved for every state of every history (props/C07.v, closed): solve is a query on "
         "the wiring state; an accepted connect is recorded and recognised; rejected cut/remove change nothing; the matrix of the circuit a "
